@@ -104,13 +104,16 @@ class LinearInterpolator(NNBase):
         predictions = np.einsum('ij,ijk->ik', normalized_pts,
                                 normal[:, :self._indep_dims, :]) - pc
 
-        # Check to see if there are any collinear points and replace them
-        n0 = np.where(normal[:, -1, :] == 0)
-        predictions[n0, :] = self._tv[nloc[0, n0], :]
+        # Check to see if there are any collinear points and replace them with the value of the
+        # nearest neighbor. The normals have unit length, so a last component that is zero up to
+        # roundoff means that the neighbors do not span a hyperplane.
+        last = normal[:, -1, :]
+        degenerate = np.abs(last) < 1e-12
+        nearest = self._tv[nloc[:, 0], :]
 
         # Finish computation for the good normals
-        n = np.where(normal[:, -1, :] != 0)
-        predictions[n] /= -normal[:, -1, :][n]
+        predictions = np.where(degenerate, nearest,
+                               predictions / -np.where(degenerate, 1., last))
 
         # Rescale to original units
         predictions = (predictions * self._tvr) + self._tvm
@@ -152,9 +155,13 @@ class LinearInterpolator(NNBase):
             ndist, nloc = self._KData.query(normPredPts.real, dims)
 
         normal, pc = self._find_hyperplane(nloc)
-        if np.any(normal[:, -1, :]) == 0:
-            return gradient
-        gradient[:] = (-normal[:, :-1, :] / normal[:, -1, :]).squeeze().T
+        # Where the neighbors do not span a hyperplane the prediction is the (locally constant)
+        # value of the nearest neighbor, so the gradient is zero there.
+        last = normal[:, -1:, :]
+        degenerate = np.abs(last) < 1e-12
+        gradient[:] = np.transpose(np.where(degenerate, 0.,
+                                            -normal[:, :-1, :] / np.where(degenerate, 1., last)),
+                                   (0, 2, 1))
 
         grad = gradient * (self._tvr[:, np.newaxis] / self._tpr)
 
